@@ -4,8 +4,7 @@ import AcqVerif.Runtime.Data.MonReach
 
 Model: M1 (`AcqVerif.Runtime`); the monitoring client's reader is reader 1 of `sink.in`. For every scenario, client program
 (any pattern of `acquire_map_read` / `acquire_unmap_read` with partial consumption, holding a region across `acquire_stop`,
-`acquire_abort`, repeated acquisitions) and every schedule, in every reachable state, for a stream without scripted
-camera faults and a client that keeps the API's usage rule (no second map without unmap):
+`acquire_abort`, repeated acquisitions) and every schedule, in every reachable state, for every stream (scripted camera faults and empty frames included) and a client that keeps the API's usage rule (no second map without unmap):
 
 * what the client has consumed so far is the committed byte stream from the position at which its reader registered,
   byte after byte — no gap, no repetition, no reordering; a mapped region holds exactly the next bytes; the reader's
@@ -26,13 +25,12 @@ include h
 
 /-- (1) **gap-free, duplicate-free, in order**: there is a well-formed history of `sink.in` whose ghost record of what
 reader 1 consumed is exactly the stream positions `join, join+1, …, idx-1`, in this order; the reader's status is `Ok`. -/
-theorem monitor_consumes_the_stream_in_order (he : (getS rt s).cam.emptyEvery = 0)
-    (hm : rt.client.misused = false) (hreg : (getS rt s).monReg = true) :
+theorem monitor_consumes_the_stream_in_order (hm : rt.client.misused = false) (hreg : (getS rt s).monReg = true) :
     ∃ cap g, Reachable cap (getS rt s).sinkCh g ∧
       nth g.seen 1 = (List.range' (nth (getS rt s).sinkCh.join 1) (nth (getS rt s).sinkCh.idx 1 - nth (getS rt s).sinkCh.join 1)).map some ∧
       nth (getS rt s).sinkCh.join 1 ≤ nth (getS rt s).sinkCh.idx 1 ∧ nth (getS rt s).sinkCh.idx 1 ≤ (getS rt s).sinkCh.total ∧
       (nth (getS rt s).sinkCh.rds 1).status = 0 := by
-  have d := DUse.micro rt h s he hm
+  have d := DUse.micro rt h s (Here.intro _) hm
   obtain ⟨cap, g, hr⟩ := d.ok
   have hn : 1 < (getS rt s).sinkCh.rds.length := by
     have := d.nrd; rw [hreg] at this; simp only [cv_nrd, ite_true] at this; omega
@@ -40,12 +38,11 @@ theorem monitor_consumes_the_stream_in_order (he : (getS rt s).cam.emptyEvery = 
   exact ⟨cap, g, hr, a1, a2, a3, C01.status_stays_ok hr 1 hn⟩
 
 /-- (2) a region the client has mapped lies inside the committed data and holds exactly its next `len` stream bytes -/
-theorem mapped_region_is_the_next_bytes (he : (getS rt s).cam.emptyEvery = 0)
-    (hm : rt.client.misused = false) (hreg : (getS rt s).monReg = true) (hmap : (nth (getS rt s).sinkCh.rds 1).mapped = true) :
+theorem mapped_region_is_the_next_bytes (hm : rt.client.misused = false) (hreg : (getS rt s).monReg = true) (hmap : (nth (getS rt s).sinkCh.rds 1).mapped = true) :
     ∃ cap g, Reachable cap (getS rt s).sinkCh g ∧ 0 < C02.regionLen (getS rt s).sinkCh 1 ∧
       nth (getS rt s).sinkCh.idx 1 + C02.regionLen (getS rt s).sinkCh 1 ≤ (getS rt s).sinkCh.total ∧
       ∀ j, j < C02.regionLen (getS rt s).sinkCh 1 → g.mem (C02.regionBeg (getS rt s).sinkCh 1 + j) = some (nth (getS rt s).sinkCh.idx 1 + j) := by
-  have d := DUse.micro rt h s he hm
+  have d := DUse.micro rt h s (Here.intro _) hm
   obtain ⟨cap, g, hr⟩ := d.ok
   have hn : 1 < (getS rt s).sinkCh.rds.length := by
     have := d.nrd; rw [hreg] at this; simp only [cv_nrd, ite_true] at this; omega
@@ -54,24 +51,21 @@ theorem mapped_region_is_the_next_bytes (he : (getS rt s).cam.emptyEvery = 0)
 
 /-- (3) **nothing of a finished acquisition is left for a registered monitor**: after `acquire_stop`/`acquire_abort`
 flushed it, the reader has consumed everything ever committed, until a new source thread is created -/
-theorem flushed_monitor_has_nothing_unread (he : (getS rt s).cam.emptyEvery = 0)
-    (hm : rt.client.misused = false) (hfl : (getS rt s).monFlushed = true) :
+theorem flushed_monitor_has_nothing_unread (hm : rt.client.misused = false) (hfl : (getS rt s).monFlushed = true) :
     (getS rt s).monReg = true ∧ nth (getS rt s).sinkCh.idx 1 = (getS rt s).sinkCh.total ∧ (getS rt s).src.pc = .done :=
-  (DMon.micro rt h s he hm).flushed hfl
+  (DMon.micro rt h s (Here.intro _) hm).flushed hfl
 
 /-- (4) **freshness**: a monitor reader that was registered and caught up when the storage was started stays at or beyond
 the start of that run: every byte it is handed was committed in the current acquisition … -/
-theorem fresh_monitor_sees_only_the_current_run (he : (getS rt s).cam.emptyEvery = 0)
-    (hm : rt.client.misused = false) (hfr : (getS rt s).sto.monFresh = true) :
+theorem fresh_monitor_sees_only_the_current_run (hm : rt.client.misused = false) (hfr : (getS rt s).sto.monFresh = true) :
     (getS rt s).sto.base ≤ nth (getS rt s).sinkCh.idx 1 :=
-  ((DMon.micro rt h s he hm).fresh hfr).2
+  ((DMon.micro rt h s (Here.intro _) hm).fresh hfr).2
 
 /-- (4') … and the frames committed at or after that position are the current camera run's frames `0, 1, 2, …` -/
-theorem frames_of_the_current_run (he : (getS rt s).cam.emptyEvery = 0)
-    (hm : rt.client.misused = false) (hF : 0 < (getS rt s).F) :
+theorem frames_of_the_current_run (hm : rt.client.misused = false) (hF : 0 < (getS rt s).F) :
     since (getS rt s).sinkFrames (getS rt s).sto.base =
       expected (getS rt s).cam.run (getS rt s).sto.base (getS rt s).F (getS rt s).sto.ncommit :=
-  (DId.micro rt h s he hm hF).frames
+  (DId.micro rt h s (Here.intro _) hm hF).frames
 
 omit h in
 /-- the flush of the monitor reader in `acquire_stop` ends by recording `monFlushed` -/
